@@ -178,6 +178,61 @@ pub fn post_merge(id: &str, acc: &mut Acc) {
     }
 }
 
+/// Reference-model self-binding (run by `./check setup`): a failure here is a machinery error, never a verdict.
+/// (a) the independent decoder must decode the libFLAC-made fixtures of the repository with its own MD5 equal to the
+///     MD5 stored in their STREAMINFO; (b) generator and reference decoder must invert each other on the plain
+///     stream and every single-deviation stream of the grammar space.
 pub fn selftest() -> i32 {
-    0
+    use vph::{fgen, refdec};
+    let mut bad = 0;
+    let mut n = 0;
+    if let Ok(rd) = std::fs::read_dir("/repo/tests/data") {
+        let mut files: Vec<_> = rd.filter_map(|e| e.ok()).map(|e| e.path()).filter(|p| p.extension().map(|x| x == "flac").unwrap_or(false)).collect();
+        files.sort();
+        for p in files {
+            // cuesheet.flac declares 48.7M samples (≈2 GiB in the reference decoder's per-frame bookkeeping): skipped here
+            if p.file_name().map(|f| f == "cuesheet.flac").unwrap_or(false) {
+                continue;
+            }
+            let bytes = match std::fs::read(&p) {
+                Ok(b) => b,
+                Err(_) => continue,
+            };
+            n += 1;
+            match crate::core::guarded(|| refdec::decode(&bytes)) {
+                Ok(Ok(st)) => {
+                    if st.info.md5 != [0; 16] && refdec::pcm_md5(&st.pcm, st.info.bps) != st.info.md5 {
+                        eprintln!("MACHINERY: refdec decodes {} to PCM whose MD5 differs from STREAMINFO", p.display());
+                        bad += 1;
+                    }
+                }
+                Ok(Err(r)) => {
+                    eprintln!("MACHINERY: refdec rejects fixture {}: {} {}", p.display(), r.code, r.msg);
+                    bad += 1;
+                }
+                Err(pn) => {
+                    eprintln!("MACHINERY: refdec panics on {}: {pn}", p.display());
+                    bad += 1;
+                }
+            }
+        }
+    }
+    let menus = crate::gspace::menus();
+    let mut built = 0;
+    crate::core::for_each_deviation(&menus, 1, |k| {
+        if let Ok(spec) = crate::gspace::make_spec(k) {
+            if let Ok(b) = fgen::build(&spec) {
+                built += 1;
+                match crate::core::guarded(|| refdec::decode(&b.bytes)) {
+                    Ok(Ok(st)) if st.pcm == b.pcm => {}
+                    other => {
+                        eprintln!("MACHINERY: fgen/refdec disagree on vector {k:?}: {:?}", other.map(|r| r.map(|s| s.pcm.len()).map_err(|e| e.code)));
+                        bad += 1;
+                    }
+                }
+            }
+        }
+    });
+    println!("selftest: {n} fixtures decoded with matching MD5, {built} generated streams inverted by the reference decoder, {bad} failures");
+    if bad > 0 || n == 0 || built == 0 { 2 } else { 0 }
 }
